@@ -78,17 +78,17 @@ def _rules():
 
 # property -> mechanisms it depends on *in addition to* the clauses its own module already runs
 DEPENDS = {
-    "C01": ["squash", "splice", "partial", "flags", "stash-deletes", "lookup", "content", "export"],
+    "C01": ["squash", "splice", "partial", "flags", "stash-deletes", "lookup", "content", "export", "liveness"],
     "C02": ["stash-deletes", "lookup", "export"],
     "C03": ["splice", "conflict", "lookup", "content", "map-api"],
     "C04": ["splice", "dependency", "stash-deletes", "lookup", "content"],
     "C05": ["conflict", "squash", "splice", "dependency", "map-api"],
     "C06": ["dependency", "delete-set", "slice", "partial", "lookup", "content"],
-    "C07": ["delete-set", "slice", "partial", "export"],
+    "C07": ["delete-set", "slice", "partial", "export", "liveness"],
     "C08": ["slice", "delete-set", "partial"],
     "C09": ["slice", "partial", "content"],
     "C12": ["splice", "squash", "lookup"],
-    "C13": ["splice", "delete-set", "lookup", "content", "export"],
+    "C13": ["splice", "delete-set", "lookup", "content", "export", "liveness"],
     "C14": ["splice", "liveness", "lookup"],
     "C15": ["squash", "splice", "content"],
     "C16": ["delete-set"],
